@@ -8,7 +8,9 @@ EXPLANATION = (
     "Topology::connected uses a fresh visited set per start node; (R2) edge construction in spanned and from_modules: under kind()==Endpoint, "
     "EdgeRaw.start is the endpoint gate, EdgeRaw.end is the gate reached by walking the *whole* path iterator (no hop bound), EdgeRaw.dst "
     "is the index of the node owning that end gate; (R3) filter_nodes/filter_edges keep node ids and edge targets consistent (edges to "
-    "removed nodes are dropped, remaining targets remapped). Decides these necessary conditions only; not graph-query correctness in general.")
+    "removed nodes are dropped, remaining targets remapped). "
+    '(R2 also: a spanned module is registered as a node before its gates are walked, and bidirectional construction adds both directions for every edge.) '
+    "Decides these necessary conditions only; not graph-query correctness in general.")
 ASSUMPTIONS = ["a gate chain starting at an endpoint gate is a finite path (C08.R4: at most two peers per gate)"]
 
 T = 'des::net::topology::Topology'
